@@ -51,6 +51,17 @@
 (*                 variation store is memoised inside the cached GDEF     *)
 (*                 table without the tuple in its key; in the code and in *)
 (*                 the design nothing that depends on the tuple is kept   *)
+(*   NegCache    : lookup_glyph_image remembers, per glyph id alone, that  *)
+(*                 a lookup found no image and answers "none" at once the  *)
+(*                 next time (forgotten when the image filter changes);    *)
+(*                 whether a glyph has an image also depends on the bit    *)
+(*                 depth limit and the size asked for (strike selection);  *)
+(*                 in the code and in the design nothing is kept per glyph *)
+(*   SubMRU      : a parsed PairPos lookup remembers which of its          *)
+(*                 sub-tables handled the last pair and starts the search  *)
+(*                 there; in the code and in the design the sub-tables are *)
+(*                 tried in order for every pair and nothing of an         *)
+(*                 application outlives it                                 *)
 (* The caches are UNBOUNDED MAPS: any bound, eviction or slot reuse in the *)
 (* implementation is a behaviour this model does not have.                 *)
 (***************************************************************************)
@@ -65,7 +76,9 @@ CONSTANTS CodeKeys,      \* BOOLEAN
           ImgKeepMode,   \* "none" in the code and in the design
           LookupsCap,    \* 0 in the code and in the design
           FailKeep,      \* BOOLEAN, FALSE in the code and in the design
-          RegionMemo     \* BOOLEAN, FALSE in the code and in the design
+          RegionMemo,    \* BOOLEAN, FALSE in the code and in the design
+          NegCache,      \* BOOLEAN, FALSE in the code and in the design
+          SubMRU         \* BOOLEAN, FALSE in the code and in the design
 
 \* ---- the font ------------------------------------------------------------
 \* A font descriptor is the part of the font's content the cache model has to know:
@@ -90,7 +103,13 @@ CONSTANTS CodeKeys,      \* BOOLEAN
 \*             the most pessimistic font)
 \*   fvt     : GSUB and GPOS have one FeatureVariations record; the tuples that satisfy its condition set.  A lookup
 \*             with a field `alt` belongs to the default feature table only ("dflt") or to the substituted one ("alt")
+\*   strikes : fonts of the `strike` family: the strikes of the font's one bitmap table (EBLC/EBDT or CBLC/CBDT), in
+\*             table order: [ppem, depth, first, last] - size, bit depth, range of glyphs that have a bitmap in it
 \* Optional fields of a lookup:
+\*   subs    : GPOS, typ "pairs": the PairPos sub-tables of the lookup, in order:
+\*             [fmt 1, cov (first glyphs), pairs (the glyph pairs listed), val] - handles exactly the listed pairs;
+\*             [fmt 2, cov, cls2 (the second glyphs of class 1), val] - handles EVERY pair whose first glyph is covered
+\*             (second glyphs outside cls2 get the zero record of class 0)
 \*   scr     : the scripts whose language system has the lookup's feature (default: every script)
 \*   regs    : GPOS: the regions of the GDEF item variation store that the VariationIndex tables of the
 \*             lookup's value records refer to (default none: positioning does not depend on the tuple)
@@ -118,9 +137,11 @@ SVG == 1  CBDT == 2  SBIX == 4  EBDT == 8
 DefaultFilter == 7        \* Font::new: SVG | SBIX | CBDT
 \*  leftover : FailKeep only: the `rvrn` stage of the last shaping call failed and its working state is still there
 \*  regions  : RegionMemo only: function region -> term of the memoised scalar
+\*  noimage  : NegCache only: the glyph ids a lookup_glyph_image found no image for
+\*  mru      : SubMRU only: function <<tbl, lookup index>> -> the sub-table that handled the last pair
 InitStateOf(font) == [font |-> font, glyph |-> <<>>, images |-> <<>>, lookups |-> <<>>, supported |-> <<>>, lazy |-> <<>>,
                       parsed |-> <<>>, objs |-> <<>>, filter |-> DefaultFilter, scratch |-> <<>>,
-                      leftover |-> FALSE, regions |-> <<>>]
+                      leftover |-> FALSE, regions |-> <<>>, noimage |-> {}, mru |-> <<>>]
 \* the most pessimistic intact font: it has every image table, so every filter may select another one
 PlainFont == [fam |-> "intact", damaged |-> <<>>, lookups |-> <<>>, imgs |-> 15, sub |-> ""]
 InitState == InitStateOf(PlainFont)
@@ -175,6 +196,39 @@ ReadImages(st) ==
                     ELSE [st EXCEPT !.lazy = Put(@, "images", "failed")],
              val |-> ImgErr, stale |-> {}]
        ELSE [st |-> [st EXCEPT !.images = Put(@, k, ImagesNow(st))], val |-> ImagesNow(st), stale |-> {}]
+
+\* ---- lookup_glyph_image on a bitmap table with several strikes (CBLCTable::find_strike) ---------------------
+\* candidates: the strikes that hold the glyph and are not deeper than max_bit_depth; the first candidate is kept
+\* until one of the same size and a higher bit depth, or one of a strictly better size comes (a size at or above the
+\* target beats one below it, then the one closer to the target wins)
+BiggerOrCloser(v, cur) == IF v = 0 THEN TRUE ELSE IF cur = 0 THEN FALSE
+                          ELSE IF cur > 0 THEN v > 0 /\ v < cur ELSE v > cur
+RECURSIVE BestStrike(_, _, _, _, _, _)
+BestStrike(S, i, g, ppem, maxd, best) ==
+  IF i > Len(S) THEN best
+  ELSE LET s    == S[i]
+           cand == s.first <= g /\ g <= s.last /\ s.depth <= maxd
+           d    == s.ppem - ppem
+           bd   == S[best].ppem - ppem IN
+       BestStrike(S, i + 1, g, ppem, maxd,
+                  IF ~cand THEN best
+                  ELSE IF best = 0 THEN i
+                  ELSE IF d = bd /\ s.depth > S[best].depth THEN i
+                  ELSE IF d # bd /\ BiggerOrCloser(d, bd) THEN i ELSE best)
+StrikeOf(font, c) == BestStrike(font.strikes, 1, c.g, c.ppem, c.depth, 0)
+\* the value of lookup_glyph_image(g, ppem, max depth) when table `sel` is the selected one
+ImageVal(font, sel, c) == IF sel = ImgErr THEN <<"img", c.g, "err">>
+                          ELSE IF sel \notin {CBDT, EBDT} \/ StrikeOf(font, c) = 0 THEN <<"img", c.g, "none">>
+                          ELSE <<"img", c.g, sel, "strike", StrikeOf(font, c)>>
+\* returns [st, ret, stale]
+ImageAt(st, c) ==
+  IF NegCache /\ c.g \in st.noimage
+  THEN [st |-> st, ret |-> <<"img", c.g, "none">>,
+        stale |-> IF ImageVal(st.font, ImagesNow(st), c) # <<"img", c.g, "none">> THEN {"images.negativeGlyph"} ELSE {}]
+  ELSE LET r == ReadImages(st)
+           v == ImageVal(st.font, r.val, c) IN
+       [st |-> IF NegCache /\ v = <<"img", c.g, "none">> THEN [r.st EXCEPT !.noimage = @ \cup {c.g}] ELSE r.st,
+        ret |-> v, stale |-> IF v = ImageVal(st.font, ImagesNow(st), c) THEN {} ELSE r.stale]
 
 \* set_embedded_image_filter: which changes of the filter forget the selected image tables
 FilterWithin(a, b) == \A k \in {SVG, CBDT, SBIX, EBDT} : Bit(a, k) => Bit(b, k)
@@ -355,6 +409,38 @@ RegsOfSeq(font, tbl, idxs) == IF idxs = <<>> THEN <<>> ELSE RegsOf(LookupAt(font
 
 Nothing(st) == [st |-> st, val |-> <<>>, stale |-> {}]
 
+\* ---- GPOS pair adjustment: the sub-tables of a PairPos lookup are tried in order for every pair -------------
+\* (gpos_lookup_pairpos / PairPos::apply: format 1 handles the pairs it lists, format 2 every pair whose first
+\* glyph its Coverage has).  The term of a pair names the sub-table that handled it (0 = none).
+Handles(s, a, b) == IF s.fmt = 1 THEN <<a, b>> \in Range(s.pairs) ELSE a \in Range(s.cov)
+RECURSIVE FirstFrom(_, _, _, _, _)
+\* the first sub-table in the order start, start + 1, .., n, 1, .., start - 1 that handles (a, b); k = number tried
+FirstFrom(subs, start, k, a, b) ==
+  IF k = Len(subs) THEN 0
+  ELSE LET j == ((start - 1 + k) % Len(subs)) + 1 IN
+       IF Handles(subs[j], a, b) THEN j ELSE FirstFrom(subs, start, k + 1, a, b)
+RECURSIVE PairRun(_, _, _, _)
+\* forall_glyph_pairs_match: every pair of neighbours, left to right; returns [st, val]
+PairRun(st, L, glyphs, i) ==
+  IF i >= Len(glyphs) THEN [st |-> st, val |-> <<>>]
+  ELSE LET key   == <<L.tbl, L.idx>>
+           start == IF SubMRU /\ key \in DOMAIN st.mru THEN st.mru[key] ELSE 1
+           j     == FirstFrom(L.subs, start, 0, glyphs[i], glyphs[i + 1])
+           n     == PairRun(IF SubMRU /\ j # 0 THEN [st EXCEPT !.mru = Put(@, key, j)] ELSE st, L, glyphs, i + 1) IN
+       [st |-> n.st, val |-> << <<glyphs[i], glyphs[i + 1], j>> >> \o n.val]
+RECURSIVE ApplyPairs(_, _, _, _)
+\* the PairPos lookups among the active GPOS lookups, in order; a remembered sub-table is a stale read when the run
+\* differs from the run of a font object that remembers nothing
+ApplyPairs(st, tbl, idxs, glyphs) ==
+  IF idxs = <<>> THEN Nothing(st)
+  ELSE LET L == LookupAt(st.font, tbl, idxs[1]) IN
+       IF "subs" \notin DOMAIN L THEN ApplyPairs(st, tbl, Tail(idxs), glyphs)
+       ELSE LET mine  == PairRun(st, L, glyphs, 1)
+                fresh == PairRun([st EXCEPT !.mru = <<>>], L, glyphs, 1)
+                n     == ApplyPairs(mine.st, tbl, Tail(idxs), glyphs) IN
+            [st |-> n.st, val |-> << <<"pairs", L.idx, mine.val>> >> \o n.val,
+             stale |-> (IF mine.val # fresh.val THEN {"lookupCache.lastSubtable"} ELSE {}) \cup n.stale]
+
 \* Font::shape: loads the five layout tables (gsub, gpos, gdef, morx, kern - the first error is reported
 \* and shaping goes on without that table), looks the dotted circle up (NotRequired, no selector),
 \* fetches the lookups for (script, lang, mask) under the tuple (Features::Mask only - custom feature
@@ -380,13 +466,16 @@ Shape(st, c) ==
       \* GPOS goes on whatever happened in GSUB (Font::shape reports the first error and forges ahead)
       pidx == Ascending(ActiveSet(st.font, "GPOS", c.feats, c.script, c.tuple))
       pos == IF g2.val = "ok" THEN UseSeq(sub.st, "GPOS", pidx) ELSE Nothing(sub.st)
+      \* pair adjustment (calls that name the glyphs of their text: fonts of the pairs family)
+      pp  == IF g2.val = "ok" /\ "glyphs" \in DOMAIN c /\ ~Failed(pos.val) THEN ApplyPairs(pos.st, "GPOS", pidx, c.glyphs)
+             ELSE Nothing(pos.st)
       \* the deltas of the value records: only under a tuple and with a GDEF
       dl  == IF g2.val = "ok" /\ g3.val = "ok" /\ c.tuple # "none" /\ ~Failed(pos.val)
-             THEN ReadRegions(pos.st, RegsOfSeq(st.font, "GPOS", pidx), c.tuple) ELSE Nothing(pos.st) IN
+             THEN ReadRegions(pp.st, RegsOfSeq(st.font, "GPOS", pidx), c.tuple) ELSE Nothing(pp.st) IN
   [st |-> dl.st,
-   val |-> <<"shape", c.text, c.kern, <<g1.val, g2.val, g3.val, g4.val, g5.val>>, dc.val, rv.val, sp.val, lk.val, sub.val, pos.val, dl.val>>,
+   val |-> <<"shape", c.text, c.kern, <<g1.val, g2.val, g3.val, g4.val, g5.val>>, dc.val, rv.val, sp.val, lk.val, sub.val, pos.val, pp.val, dl.val>>,
    stale |-> g1.stale \cup g2.stale \cup g3.stale \cup g4.stale \cup g5.stale \cup dc.stale \cup rv.stale \cup sp.stale \cup lk.stale
-             \cup sub.stale \cup pos.stale \cup dl.stale]
+             \cup sub.stale \cup pos.stale \cup pp.stale \cup dl.stale]
 
 \* Font::vertical_advance: vmtx, then vhea; an error and an absent table both answer None
 VAdvance(st, c) ==
@@ -402,11 +491,14 @@ Step(st, c) ==
   CASE c.op = "LookupGlyph" -> LET r == LookupGlyph(st, c.ch, c.pres, c.vs) IN [st |-> r.st, ret |-> r.val, stale |-> r.stale]
     [] c.op = "MapGlyphs"   -> LET r == MapText(st, c.text, c.pres) IN [st |-> r.st, ret |-> <<"map", c.script, r.val>>, stale |-> r.stale]
     [] c.op = "Shape"       -> LET r == Shape(st, c) IN [st |-> r.st, ret |-> r.val, stale |-> r.stale]
-    [] c.op = "Image"       -> LET r == ReadImages(st) IN [st |-> r.st, ret |-> <<"img", c.g, r.val>>, stale |-> r.stale]
+    \* lookup_glyph_image; on the fonts of the strike family the call names the size and the bit depth limit
+    [] c.op = "Image"       -> IF "depth" \in DOMAIN c THEN ImageAt(st, c)
+                               ELSE LET r == ReadImages(st) IN [st |-> r.st, ret |-> <<"img", c.g, r.val>>, stale |-> r.stale]
     [] c.op = "HasImages"   -> LET r == ReadImages(st) IN [st |-> r.st, ret |-> <<"has", r.val>>, stale |-> r.stale]
     \* set_embedded_image_filter forgets the image tables selected under another filter
     [] c.op = "SetFilter"   -> [st |-> [st EXCEPT !.filter = c.f,
-                                                 !.images = IF CodeKeys /\ ForgetsImages(st.filter, c.f) THEN <<>> ELSE @],
+                                                 !.images = IF CodeKeys /\ ForgetsImages(st.filter, c.f) THEN <<>> ELSE @,
+                                                 !.noimage = IF c.f # st.filter THEN {} ELSE @],
                                 ret |-> "unit", stale |-> {}]
     [] c.op = "HAdvance"    -> [st |-> st, ret |-> <<"hadv", c.g>>, stale |-> {}]
     [] c.op = "VAdvance"    -> VAdvance(st, c)
@@ -418,6 +510,22 @@ Step(st, c) ==
     [] c.op = "ReadCached"  -> LET r == ReadObjs(st, "RAW", <<c.obj>>) IN
                                [st |-> r.st, ret |-> <<"obj", c.route, r.val>>, stale |-> r.stale]
 
+\* ---- what a fresh font answers, in observable terms (binding of the font semantics of the strike and pairs
+\* families: the harness reports size and bit depth of the bitmap found / the kerning of every glyph) -------------
+StrikeObs(st, c) == LET v == Step(FreshOf(st), c).ret IN
+                    IF Len(v) = 5 THEN <<st.font.strikes[v[5]].ppem, st.font.strikes[v[5]].depth>> ELSE <<>>
+\* format 1: the listed pair gets the value; format 2: the record of (class 1, class 1), the other records are zero
+PairValue(s, a, b) == IF s.fmt = 1 \/ b \in Range(s.cls2) THEN s.val ELSE 0
+RECURSIVE KernSum(_, _, _, _)
+KernSum(font, idxs, a, b) ==
+  IF idxs = <<>> THEN 0
+  ELSE LET L == LookupAt(font, "GPOS", idxs[1])
+           j == IF "subs" \in DOMAIN L THEN FirstFrom(L.subs, 1, 0, a, b) ELSE 0 IN
+       (IF j = 0 THEN 0 ELSE 0 - PairValue(L.subs[j], a, b)) + KernSum(font, Tail(idxs), a, b)
+KernObs(st, c) == LET pidx == Ascending(ActiveSet(st.font, "GPOS", c.feats, c.script, c.tuple)) IN
+                  [i \in 1 .. Len(c.glyphs) |-> IF i = Len(c.glyphs) THEN 0 ELSE KernSum(st.font, pidx, c.glyphs[i], c.glyphs[i + 1])]
+ModelObs(st, c) == IF c.op = "Image" THEN StrikeObs(st, c) ELSE KernObs(st, c)
+
 \* the same call on a freshly loaded font carrying the same configuration
 Fresh(st, c) == Step(FreshOf(st), c).ret
 
@@ -428,6 +536,6 @@ StaleIffImpure(st, c) == (Step(st, c).stale # {}) <=> ~PureStep(st, c)
 
 AllCauses == <<"glyph.dottedCircle", "images.filter", "lookupsIndex.tuple", "lazy.failedLoad",
                "readCache.position", "lookupCache.index", "supported.lang", "lookups.capacity",
-               "scratch.failedCall", "gdef.regionScalar">>
+               "scratch.failedCall", "gdef.regionScalar", "images.negativeGlyph", "lookupCache.lastSubtable">>
 CausesSeq(S) == SelectSeq(AllCauses, LAMBDA x : x \in S)
 =============================================================================
